@@ -276,7 +276,7 @@ def run_check(pid, tier, replay=None):
             'axioms_used': axioms,
             'theorems': [{'name': o['name'], 'ok': o['ok'], 'axioms': o['axioms']} for o in obligations],
             'forbidden_token_hits': forbidden,
-            'translator': {k: info.get(k) for k in ('changed', 'untranslatable', 'classes')},
+            'translator': {k: info.get(k) for k in ('changed', 'untranslatable', 'explored', 'classes')},
             'evaluations': ctx.evaluations,
             'distinct_nontrivial': len(ctx.nontrivial),
             'rule': getattr(prop, 'rule', ''),
